@@ -193,7 +193,7 @@ def main(argv=None):
             per_contract.append(pc)
         else:
             bounded_out.append(r)
-            for f in r.get("failures", []):
+            for f in r.get("failures", [])[:400]:
                 violations.append({"obligation": r["id"] + (":" + str(f.get("what"))[:80] if isinstance(f, dict) and f.get("what") else ""), "bounded": True, "replayed": True, "witness": f, "contract": r["id"]})
 
     # ------------------------------------------------------------------ known findings
